@@ -268,7 +268,7 @@ namespace ShootVerif.Rest
 
 def paramExprs (pp : List String) (p : Param) : List Expr :=
   match p.kind with
-  | .scalar => if pp.contains p.name then [] else [.param p.name]
+  | .scalar | .structElsewhere _ => if pp.contains p.name then [] else [.param p.name]
   | .struct fs => fs.map (fieldExpr p.name)
   | _ => []
 
@@ -325,6 +325,14 @@ theorem handleParam_closed (verb : Verb) (pp : List String) (st st' : Cooked) (p
     · simp only [hp, Bool.false_eq_true, ↓reduceIte, Except.ok.injEq] at h; subst h
       simp [paramExprs, aliasEntries, ptrEntries, fieldPtrEntries, hk, hp, setAll]
   | scalar =>
+    simp only [hk] at h
+    by_cases hp : p.ptr = true <;> by_cases hm : p.name ∈ pp
+    all_goals
+      have hc : pp.contains p.name = decide (p.name ∈ pp) := by simp
+      simp only [hc, hm, decide_true, decide_false, hp, Bool.false_eq_true, ↓reduceIte, Except.ok.injEq] at h
+      subst h
+      simp [paramExprs, aliasEntries, ptrEntries, fieldPtrEntries, hk, hp, hm, setAll]
+  | structElsewhere fs0 =>
     simp only [hk] at h
     by_cases hp : p.ptr = true <;> by_cases hm : p.name ∈ pp
     all_goals
